@@ -24,7 +24,7 @@ RULE = ('histories over the alphabet {add_variable, attribute set, item set, (na
         'set, random up to length 12. non-trivial = distinct history (operation, operand, target sequence) of length >= 1')
 ASSUMPTIONS = ['"dtype it was created with": dtype of the series right after add_variable / construction',
                'a failed assignment may raise any exception class; only "raises and leaves every series unchanged" is asserted',
-               'a failing *value conversion* (a NumPy array of text assigned to a numeric variable) is not one of the "cannot fit" categories of the statement '
+               'a failing *value conversion* (a NumPy array of the right length holding text, or NaN / inf for an integer variable) is not one of the "cannot fit" categories of the statement '
                '(wrong length or shape, unknown or duplicate name): NumPy casts such an array element by element and may have stored a prefix before raising - counted, not asserted']
 ANCHORS = [('fsic/core/containers.py', 'VectorContainer.add_variable'), ('fsic/core/containers.py', 'VectorContainer.__setattr__'),
            ('fsic/core/containers.py', 'VectorContainer.__setitem__'), ('fsic/core/containers.py', 'VectorContainer.replace_values'),
@@ -353,7 +353,10 @@ def step(ctx, c, twin, dtypes, hist, kind, n, span, op, optag, opval_factory, ta
                 any(after[k] != before[k] for k in ('span', 'class_names', 'plain', 'index')):
             ctx.violation('unknown-name-accepted', f'{kind}: {desc} for a name that is not a variable -> {outcome}; attributes {before["attrs"]} -> {after["attrs"]}', case)
             return False
-    text_into_numeric = isinstance(operand, np.ndarray) and operand.dtype.kind in 'USO' and target in before['index'] and before['series'][target][1].kind in 'fiub'
+    # an array of the right length for a known variable "fits": if it is refused, it is for its *values* (text into numbers, NaN into
+    # integers), which NumPy discovers element by element
+    text_into_numeric = isinstance(operand, np.ndarray) and operand.shape == (n,) and target in before['index'] and \
+        (operand.dtype.kind in 'USO' or (operand.dtype.kind == 'f' and before['series'][target][1].kind in 'iub'))
     if op in ('values_bad', 'values_misshapen'):
         sh = before_values_shape
         wrong = op == 'values_bad' or (len(sh) > 1 and sh[0] * sh[1] > 0 and not (sh[0] == 1 and sh[1] == 1) and not (op == 'values_misshapen' and sh[0] == 1 and False))
